@@ -23,7 +23,7 @@ ASSUMPTIONS = [
     "virtual clock; AF_UNIX socketpairs as in C04",
     "a 'probe' of an entry point is a maximal run of identical frames with no delivery in between",
 ]
-MUST = ["two_piece_answer_in_time", "lone_fragment_every_attempt", "slow_answer_in_time", "full_timeout_after_corrupt_answer", "final_silent_exact", "prefix_success_after_drops", "prefix_exhausted", "prefix_rejected", "prefix_send_error",
+MUST = ["prefix_idle_connection_dropped", "loop_change_previous_loop_open", "two_piece_answer_in_time", "lone_fragment_every_attempt", "slow_answer_in_time", "full_timeout_after_corrupt_answer", "final_silent_exact", "prefix_success_after_drops", "prefix_exhausted", "prefix_rejected", "prefix_send_error",
         "prefix_recv_error", "loop_change", "connect_probe", "discover_probe", "search_probe", "search_answered", "detected_family_probe",
         "connected_then_silent"]
 EXHAUSTIVE = {"quick": True, "thorough": True}
@@ -32,7 +32,7 @@ EPS = 1e-6
 
 
 def classes(R):
-    cs = ["ok0", "okslow", "okfrag", "exh", "fragexh", "senderr", "recverr", "badlate_ok", "badlate_exh"]
+    cs = ["ok0", "okslow", "okfrag", "okdrop", "exh", "fragexh", "senderr", "recverr", "badlate_ok", "badlate_exh"]
     cs += [f"ok{k}" for k in range(1, R + 1)]
     cs += [f"rej{j}" for j in range(0, R + 1)]
     return cs
@@ -43,6 +43,8 @@ def script_for(cls, R):
         return ["now"]
     if cls == "okslow":            # answered 0.6 T after the transmission: in time, one transmission
         return [["delay", "0.6T"]]
+    if cls == "okdrop":            # answered at once; afterwards the peer drops the idle connection (TCP FIN / UDP port closed)
+        return ["now"]
     if cls == "okfrag":            # answered at once in two pieces, the second 0.3 T after the first: one transmission
         return [["frag2", None, "0.3T"]]
     if cls.startswith("ok"):
@@ -77,6 +79,8 @@ def scenario(transport, ka, T, R, prefix, newloop):
         if cls == "senderr":
             steps.append(["arm_send_fault", errno.ENETUNREACH])
         steps.append(["read", reg, 2])
+        if cls == "okdrop" and transport == "tcp":       # (UDP has no idle drop: an ICMP error only ever answers a datagram that was sent)
+            steps.append(["peerdrop"])
         if (i + len(prefix)) % 2 == 1:
             steps.append(["sleep", 0.4 * T])        # the next request starts 0.4 T later (stale timers would fire inside it)
         groups.append(steps)
@@ -87,6 +91,8 @@ def scenario(transport, ka, T, R, prefix, newloop):
           "after": "drop", "prefix": list(prefix), "newloop": newloop, "hops": (len(prefix) + sum(map(len, prefix))) % 4}
     if newloop:
         sc["segments"] = [[{"start": 0.0, "steps": g}] for g in groups]
+        if newloop == "open":       # new_event_loop() + run_until_complete(): the previous loop objects are still open
+            sc["keep_loops_open"] = True
     else:
         sc["tasks"] = [{"start": 0.0, "steps": [s for g in groups for s in g]}]
     return sc
@@ -130,13 +136,15 @@ def check_history(sc, run, part: Part):
             else:
                 part.count("slow_answer_in_time")
         elif cls.startswith("ok"):
-            k = int(cls[2:])
+            k = 0 if cls == "okdrop" else int(cls[2:])
             if rec["outcome"] != "ok" or not spaced(txt, rec["t0"], T, k + 1):
                 out.append((f"C05/{tr}/answer-on-kth-transmission-lost",
                             f"{ctx}: outcome {rec['outcome']} with transmissions at {[round(t - rec['t0'], 6) for t in txt]}, "
                             f"expected success on transmission {k + 1}"))
             elif k:
                 part.count("prefix_success_after_drops")
+            elif cls == "okdrop":
+                part.count("prefix_idle_connection_dropped")
         elif cls.startswith("rej"):
             j = int(cls[3:])
             if rec["outcome"] != "RequestRejectedException" or not spaced(txt, rec["t0"], T, j + 1):
@@ -178,6 +186,8 @@ def check_history(sc, run, part: Part):
                 part.count("prefix_recv_error")
     if sc["newloop"]:
         part.count("loop_change")
+        if sc["newloop"] == "open":
+            part.count("loop_change_previous_loop_open")
     return out
 
 
@@ -365,7 +375,7 @@ def plan(tier, seed):
     for transport in ("udp", "tcp"):
         for ka in (False, True):
             for T, R in grid:
-                for newloop in (False, True):
+                for newloop in (False, True, "open"):
                     specs.append({"mode": "hist", "transport": transport, "ka": ka, "T": T, "R": R, "depth": depth,
                                   "newloop": newloop})
     specs.append({"mode": "entry", "tier": tier})
